@@ -1,13 +1,68 @@
-(* Proofs/TTHeaderP.v — lemmas about Model/TTHeader.v against Spec/FrameLayout.v *)
+(* Proofs/TTHeaderP.v — the statements of C06 and C10 in the shape Properties/C06.v and
+   Properties/C10.v quote them (lemmas: TTHeaderLib, TTHeaderSec, TTHeaderDec, TTHeaderEnc). *)
 From GV Require Import Lib.Bytes Lib.Res Gen.Consts Model.TTHeader Spec.FrameLayout.
-From Coq Require Import ZifyN ZifyNat ZifyBool.
+From GV Require Export Proofs.TTHeaderLib Proofs.TTHeaderSec Proofs.TTHeaderDec Proofs.TTHeaderEnc
+     Proofs.TTHeaderRef Proofs.TTHeaderLay.
+From Coq Require Import ZifyN ZifyNat ZifyBool Permutation.
 Open Scope N_scope.
 
-(* the values the property fixes, tied to the Go constants *)
-Lemma consts_ok :
-  c_meta = L_meta /\ c_magic = L_magic16 * 65536 /\ c_mask = 65535 * 65536 /\ c_max = L_max /\
-  c_s32 = 4 /\ c_s16 = 2 /\ id_pad = 0 /\ id_kv = 1 /\ id_intkv = 16 /\ id_acl = 17 /\
-  size_bits = 32 /\ ttheader_Decode_headerInfoSize_signed = 0%Z /\
-  map Z.to_N ttheader_checkProtocolID_cases = [0; 4; 3; 16; 17] /\ gdpr_key = gdpr /\
-  c_streaming = L_streaming.
-Proof. repeat split; reflexivity. Qed.
+(* ---------- C10 ---------- *)
+Lemma p_decode_total b :
+  safe (snd (decode b)) /\ snd (decode b) <> Err e_fuel /\
+  fst (decode b) <= N.min (len b) (L_meta + declared b).
+Proof. destruct (decode_total b) as [[H1 H2] H3]. auto. Qed.
+
+Lemma p_decode_ok_values b r :
+  wf b -> snd (decode b) = Ok r ->
+  fst (decode b) = L_meta + declared b /\
+  d_hlen r = Z.of_N (L_meta + declared b) /\
+  d_plen r = (Z.of_N (field_at b 0 4) + 4 - d_hlen r)%Z /\
+  d_flags r = field_at b 6 2 /\ d_seq r = to_signed 32 (field_at b 8 4) /\
+  forall pid nt rest secs,
+    info_of b = pid :: nt :: rest -> secs_ok secs -> drop nt rest = enc_secs secs ->
+    d_pid r = pid /\ d_int r = fst (ointerp secs) /\ d_str r = snd (ointerp secs).
+Proof.
+  intros Hw H. destruct (decode_ok_values b r Hw H) as [Hc Hv].
+  assert (Ha : accepts b) by (apply (decode_ok_iff b Hw); eauto).
+  destruct Ha as (_ & _ & _ & pid & nt & rest & secs & Hi & _ & _ & Hok & Ed).
+  pose proof (Hv _ _ _ _ Hi Hok Ed) as Hr.
+  split; [exact Hc|].
+  assert (E1 : d_hlen r = Z.of_N (L_meta + declared b)) by (rewrite Hr; reflexivity).
+  assert (E2 : d_plen r = (Z.of_N (field_at b 0 4) + 4 - d_hlen r)%Z) by (rewrite Hr; reflexivity).
+  assert (E3 : d_flags r = field_at b 6 2) by (rewrite Hr; reflexivity).
+  assert (E4 : d_seq r = to_signed 32 (field_at b 8 4)) by (rewrite Hr; reflexivity).
+  split; [exact E1|split; [exact E2|split; [exact E3|split; [exact E4|]]]].
+  intros pid' nt' rest' secs' Hi' Hok' Ed'. rewrite (Hv _ _ _ _ Hi' Hok' Ed').
+  split; [reflexivity|split; reflexivity].
+Qed.
+
+(* the bytes-reader entry point DecodeFromBytes (used by C03 as well) *)
+Lemma p_decode_from_bytes_total b :
+  safe (decode_from_bytes b) /\ decode_from_bytes b <> Err e_fuel.
+Proof. destruct (decode_total b) as [[H1 H2] _]. split; assumption. Qed.
+
+Lemma p_decode_from_bytes_hlen b r :
+  wf b -> decode_from_bytes b = Ok r ->
+  (Z.of_N L_meta + 2 <= d_hlen r <= Z.of_N (len b))%Z /\ d_hlen r = Z.of_N (L_meta + declared b).
+Proof.
+  unfold decode_from_bytes. intros Hw H.
+  destruct (p_decode_ok_values b r Hw H) as (_ & Hh & _).
+  assert (Ha : accepts b) by (apply (decode_ok_iff b Hw); eauto).
+  destruct Ha as (Hl & _ & Hd & _). unfold L_meta in *. rewrite Hh. lia.
+Qed.
+
+(* ---------- C06 ---------- *)
+Lemma p_enc_fail_iff tl p :
+  NoDup (keys (p_str p)) ->
+  ((exists e, encode tl p = Err e) <-> L_max < info_size (p_int p) (p_str p) mod two32) /\
+  ((exists b, encode tl p = Ok b) <-> info_size (p_int p) (p_str p) mod two32 <= L_max).
+Proof. apply enc_fail_iff. Qed.
+
+(* without the 32-bit conversion: a header info below 4 GiB *)
+Lemma p_enc_fail_iff_nowrap tl p :
+  NoDup (keys (p_str p)) -> info_size (p_int p) (p_str p) < two32 ->
+  ((exists e, encode tl p = Err e) <-> L_max < info_size (p_int p) (p_str p)).
+Proof.
+  intros Hnd Hnw. destruct (enc_fail_iff tl p Hnd) as [H _]. unfold u32 in H.
+  rewrite N.mod_small in H by exact Hnw. exact H.
+Qed.
